@@ -415,6 +415,15 @@ func describeKey(t *table, row []any, idx []int) string {
 // checkOutgoing verifies that the rows of t reference existing rows.
 func (x *executor) checkOutgoing(t *table, rows [][]any) *Error {
 	for _, fk := range t.fks {
+		if err := x.checkOutgoingFK(t, fk, rows); err != nil {
+			return err
+		}
+	}
+	return nil
+}
+
+func (x *executor) checkOutgoingFK(t *table, fk *foreignKey, rows [][]any) *Error {
+	{
 		var present map[string]bool
 		for _, r := range rows {
 			key, ok := keyOf(r, fk.cols)
@@ -433,6 +442,29 @@ func (x *executor) checkOutgoing(t *table, rows [][]any) *Error {
 				return errf("foreign_key", "insert or update on table %q violates foreign key constraint %s: key (%s)=(%s) is not present in table %q",
 					t.name, fk, strings.Join(t.colNames(fk.cols), ", "), describeKey(t, r, fk.cols), fk.parent.name)
 			}
+		}
+	}
+	return nil
+}
+
+// checkOutgoingChanged is checkOutgoing restricted, per foreign key, to the rows whose key differs from
+// the one of the row they replace.
+func (x *executor) checkOutgoingChanged(t *table, oldRows, newRows [][]any) *Error {
+	for _, fk := range t.fks {
+		var changed [][]any
+		for i, r := range newRows {
+			nk, nok := keyOf(r, fk.cols)
+			ok, ook := keyOf(oldRows[i], fk.cols)
+			if nok && ook && nk == ok {
+				continue
+			}
+			changed = append(changed, r)
+		}
+		if len(changed) == 0 {
+			continue
+		}
+		if err := x.checkOutgoingFK(t, fk, changed); err != nil {
+			return err
 		}
 	}
 	return nil
@@ -651,7 +683,10 @@ func (x *executor) updateRows(t *table, idx []int, newRows [][]any) *Error {
 	if err := x.checkUnique(t, newRows); err != nil {
 		return err
 	}
-	if err := x.checkOutgoing(t, newRows); err != nil {
+	// like PostgreSQL (RI_FKey_fk_upd_check_required) an UPDATE re-checks a foreign key only when its
+	// columns change: a row whose other reference is being removed by the same statement (ON DELETE
+	// SET NULL on one key, CASCADE on another) is not refused half-way
+	if err := x.checkOutgoingChanged(t, oldRows, newRows); err != nil {
 		return err
 	}
 	return x.propagate(t, oldRows, newRows)
